@@ -51,7 +51,7 @@ type index interface {
 	Transpose(workers int, found []uint64, foundNil bool) []uint64
 	TransposeCounts(workers int, found []uint64, foundNil bool) map[uint64]int64
 	Existence() []uint64
-	MutateExistenceResultProbe() // mutate a bitmap returned by a query (independence)
+	MutateResults(workers int, vals []int64) // mutate every bitmap a query returns (independence)
 }
 
 // ---------------- 64-bit ----------------
@@ -162,10 +162,24 @@ func (x idx64) TransposeCounts(w int, found []uint64, isNil bool) map[uint64]int
 	return out
 }
 func (x idx64) Existence() []uint64 { return x.b.GetExistenceBitmap().ToArray() }
-func (x idx64) MutateExistenceResultProbe() {
-	r := x.b.CompareValue(0, roaring64.GE, -1<<62, 0, nil)
-	r.Add(123456789)
-	r.RemoveRange(0, 1<<40)
+func (x idx64) MutateResults(w int, vals []int64) {
+	scribble := func(r *roaring64.Bitmap) {
+		if r == nil {
+			return
+		}
+		r.Add(123456789)
+		r.RemoveRange(0, 1<<40)
+		r.AddRange(1<<41, 1<<41+10)
+	}
+	scribble(x.b.CompareValue(w, roaring64.GE, -1<<62, 0, nil))
+	scribble(x.b.CompareValue(w, roaring64.LE, 1<<62, 0, x.b.GetExistenceBitmap().Clone()))
+	scribble(x.b.BatchEqual(w, vals))
+	bigs := make([]*big.Int, len(vals))
+	for i, v := range vals {
+		bigs[i] = big.NewInt(v)
+	}
+	scribble(x.b.BatchEqualBig(w, bigs))
+	scribble(x.b.IntersectAndTranspose(w, nil))
 }
 
 // ---------------- 32-bit ----------------
@@ -271,10 +285,19 @@ func (x idx32) TransposeCounts(w int, found []uint64, isNil bool) map[uint64]int
 	return out
 }
 func (x idx32) Existence() []uint64 { return arr64(x.b.GetExistenceBitmap()) }
-func (x idx32) MutateExistenceResultProbe() {
-	r := x.b.CompareValue(0, bsi32.GE, -1<<62, 0, nil)
-	r.Add(123456789)
-	r.RemoveRange(0, 1<<32)
+func (x idx32) MutateResults(w int, vals []int64) {
+	scribble := func(r *roaring.Bitmap) {
+		if r == nil {
+			return
+		}
+		r.Add(123456789)
+		r.RemoveRange(0, 1<<32)
+		r.AddRange(77, 99)
+	}
+	scribble(x.b.CompareValue(w, bsi32.GE, 0, 0, nil))
+	scribble(x.b.CompareValue(w, bsi32.LE, 1<<62, 0, x.b.GetExistenceBitmap().Clone()))
+	scribble(x.b.BatchEqual(w, vals))
+	scribble(x.b.IntersectAndTranspose(w, nil))
 }
 
 // ---------------- generators ----------------
